@@ -293,6 +293,12 @@ func genCoreProgram(r *Rng) []byte {
 				v = big.NewInt(3000000)
 			}
 			push(v)
+			again := two && r.Chance(1, 3) // the same CREATE2 a second time: an address collision
+			if again {
+				// keep a copy of the four operands below
+				a.op(0x83, 0x83, 0x83, 0x83) // DUP4 x4
+				depth += 4
+			}
 			if two {
 				a.op(0xf5)
 				depth -= 3
@@ -303,6 +309,15 @@ func genCoreProgram(r *Rng) []byte {
 			a.op(0x80) // DUP1: the address
 			depth++
 			visible()
+			if again {
+				a.op(0x50) // POP the first address: the copied operands are on top again
+				depth--
+				a.op(0xf5)
+				depth -= 3
+				a.op(0x80)
+				depth++
+				visible()
+			}
 			if r.Chance(2, 3) {
 				// call what was created
 				a.pushN(0)
